@@ -71,7 +71,7 @@ ROOTS = {
     "v1": ["SETFORMAT 1"],
     "muted": ["RXTUNE %d" % F2, "TXTUNE %d" % F1, "RFMUTE 1", "POWERON"],
     "drop-pending": ["RXTUNE %d" % F2, "TXTUNE %d" % F1, "FAKE_DROP 2 3", "POWERON"],
-    "sim": ["FAKE_TOA 10 2", "FAKE_RSSI -80 3", "FAKE_CI 90 5", "SETTA 1", "SETPOWER 10", "SETFORMAT 1"],
+    "sim": ["RXTUNE %d" % F2, "TXTUNE %d" % F1, "FAKE_TOA 10 2", "FAKE_RSSI -80 3", "FAKE_CI 90 5", "SETTA 1", "SETPOWER 10", "SETFORMAT 1"],
 }
 
 
@@ -161,10 +161,10 @@ def run(ctx):
     roots = [tuple(("ctrl", s, 0, 1) for s in cmds) for cmds in ROOTS.values()]
     # child running: POWERON of the tuned parent (the child is the target of a second, smaller run)
     depth = 2 if ctx.quick else 3
-    explore.bfs(ctx, spec, max_depth=depth, label="bts", roots=roots)
+    explore.bfs(ctx, spec, max_depth=depth, label="bts", roots=roots, probe_final=True)
     spec2 = Spec(ctx.tier, target=2, name="child")
     croots = [(), (("pctrl", 0, "RXTUNE %d" % F2), ("pctrl", 0, "TXTUNE %d" % F1), ("pctrl", 0, "POWERON"))]
-    explore.bfs(ctx, spec2, max_depth=1 if ctx.quick else 2, label="child", roots=croots)
+    explore.bfs(ctx, spec2, max_depth=1 if ctx.quick else 2, label="child", roots=croots, probe_final=True)
     c = ctx.cov
     c["alphabet_size"] = len(spec.alpha)
     c["seeded_prior_states"] = len(roots) + len(croots)
